@@ -109,7 +109,8 @@ def compare(ctx, I, res):
     x = I.x[idx]
     b = getattr(tf, "b", None)
     with mp.workdps(DPS):
-        f = ref_map(I.kind, I.args, b=b)
+        fargs = {k: (v if v is None or isinstance(v, bool) else float(v)) for k, v in I.args.items()}  # any numeric spelling
+        f = ref_map(I.kind, fargs, b=None if b is None else float(b))
         xm = [mp.mpf(float(v)) for v in x]
         rm = [f(v) for v in xm]
         r_lib = res["r"][idx]
